@@ -467,6 +467,14 @@ example : accepts gEx16f [.sub 0, .acc 0, .cmd 0 0, .ret 0 0 true, .cmd 0 1, .re
     .ret 1 0 true, .cmd 1 1, .ret 1 1 false, .done 1 false, .hacc 3, .hacc 2, .cmd 2 0, .ret 2 0 false, .stall 3] = true := by
   decide
 
+/-- … a handler submission REFUSED right after the body failed, with no cause in the owner's or the root context (the
+body's failure lives in the body's own context and is none; `handlers_submitted_after_body`): the trace of an
+implementation whose handlers go to a task manager rooted at the body's separated scope — what seeded change C16-10
+produces when the try block is the first pipeline command of a session scope of its own or follows a `pip:clear`
+(harness family c16x: scope kinds) … -/
+example : accepts gEx16 [.sub 0, .acc 0, .cmd 0 0, .ret 0 0 true, .cmd 0 1, .ret 0 1 true, .cmd 1 0,
+    .ret 1 0 true, .cmd 1 1, .ret 1 1 false, .done 1 false, .hrej 3] = false := by decide
+
 /-- … and an owner that is marked failed by nothing but the failure of the body -/
 example : accepts gEx16 [.sub 0, .acc 0, .cmd 0 0, .ret 0 0 true, .cmd 0 1, .ret 0 1 true, .cmd 1 0,
     .ret 1 0 true, .cmd 1 1, .ret 1 1 false, .done 1 false, .cmd 3 0, .ret 3 0 true, .done 3 true,
